@@ -370,6 +370,24 @@ class W3PerDocReader(base.PerDocumentReader):
         self._minlengths = {}
         self._maxlengths = {}
 
+        # The files of a loose (non-compound) segment are opened now, not on
+        # first use: a later commit may merge the segment away and delete its
+        # files, and this reader must keep returning what it returned before
+        self._loose = not segment.is_compound()
+        if self._loose:
+            self._open_files()
+
+    def _open_files(self):
+        prefix = self._segment.make_filename(".")
+        colext = W3Codec.COLUMN_EXT
+        vpostname = self._segment.make_filename(W3Codec.VPOSTS_EXT)
+        for name in sorted(self._storage.list()):
+            if name == vpostname:
+                self._prep_vectors()
+            elif name.startswith(prefix) and name.endswith(colext):
+                fieldname = name[len(prefix):-len(colext)]
+                self._colfiles[fieldname] = self._get_column_file(fieldname)
+
     def close(self):
         for colfile, _, _ in self._colfiles.values():
             colfile.close()
@@ -396,6 +414,8 @@ class W3PerDocReader(base.PerDocumentReader):
     # Columns
 
     def has_column(self, fieldname):
+        if self._loose:
+            return fieldname in self._colfiles
         filename = W3Codec.column_filename(self._segment, fieldname)
         return self._storage.file_exists(filename)
 
